@@ -49,8 +49,14 @@ type Prop struct {
 	Shrink        func(t *Trial) []*Trial
 	NoShrink      bool // the trial carries derived state that file-level reducers would desynchronise
 	ShrinkColumns bool // alignment columns may be dropped from all FASTA files at once
-	// Required probes: names that must be > 0 over a whole batch, else exit 2.
-	Required    []string
+	// Required: probes about the generated workload itself (input shapes, faults fired); if one stays
+	// at zero over a whole batch the generator no longer produces what the check relies on: exit 2.
+	Required []string
+	// Expected: probes about what the code under test did (records overtaking each other, full
+	// buffers, multi-ready selects, permuted maps). They depend on the structure of the tree being
+	// checked, which a correct change may alter, so a zero is reported (stdout + evidence) but is
+	// not an error.
+	Expected    []string
 	Assumptions []string
 }
 
